@@ -40,6 +40,9 @@ CHECKS = {
  "C11": dict(tech="exhaustive enumeration of transaction shapes over a 23-symbol alphabet (bounded length) + random longer shapes, executed atomically; per-instruction and commit-time oracle with the reference health model",
    text="Per generated world (account normal / frozen / disabled) every shape up to length 4 (quick) / 5 (thorough) over {flash start naming end index 0..4,9; end for two accounts; big/small borrow; big withdraw; deposit; repay_all; liquidate, bankruptcy, start/end liquidation of the account; transfer; close; start/end/borrow via CPI; compute-budget}: a start that set the flag named a later top-level end of this program for the same account on an unflagged account, no nesting, no liquidation/bankruptcy while flagged; at commit no flag survives and any action that left the account initially unhealthy (reference model) is followed by an end and the account is not unhealthy at commit.",
    ref="DESIGN.md §6 C11"),
+ "C14": dict(tech="exhaustive gating matrix (26 instruction rows x bank states x group-pause columns x expiry timings) evaluated in generated worlds against an expectation table written from the statement",
+   text="Per generated world the full matrix is enumerated: 26 financial instruction rows (deposit, withdraw(_all), borrow, repay(_all), liquidate as asset / liability bank, bankruptcy, close_balance, fee and insurance flows, emissions withdrawals, account transfer (+PDA), flash-loan and receivership brackets, accrue, pulse) x {Operational, Paused, ReduceOnly, Killed (real wipe-out path and injected, counted), Killed-then-configure} x 8 group-pause columns (never, active, expired-untouched, expired-cleared, extended, extended-unpropagated, unpropagated, admin-unpaused-stale-cache) x {-1, 0, +1 s} around the cached expiry; each cell executed on a snapshot where the Operational / unpaused baseline succeeds; refusals must leave the store unchanged; acceptance at expiry must not need any propagate/unpause call; ReduceOnly valuation clause checked with the reference health model. Rows that move no funds are executed and counted, not asserted.",
+   ref="DESIGN.md §6 C14, Appendix B.4"),
  "C15": dict(tech="exhaustive bounded state-space enumeration over a boundary alphabet + random long histories (proptest), history invariants against an independent reference pause machine",
    text="The real PanicState / PanicStateCache transition functions (glued exactly as the four handlers glue them) driven by (a) exhaustive sequences over {pause, admin-unpause, permissionless-unpause, propagate, wait(boundary delta)} with state hashing, complete to depth 32 (quick) / 48 (thorough), and (b) random long histories; invariants: each pause pushes paused_until by <= 30 min, never > 60 min ahead, <= 3 pauses between daily resets >= 24 h apart, expired pauses stop gating without any call (fee state and stale group cache), permissionless unpause iff expired, admin unpause never fails. Instruction-level wiring of the same handlers is exercised under C14.",
    ref="DESIGN.md §6 C15", note="Pure state-transition functions called natively with a thread-local clock stub; handler glue mirrored by hand (line references in the module)."),
